@@ -16,10 +16,34 @@ fn mapper(kind: &str) -> Box<dyn Fn(Vec<u8>) -> Vec<u8> + Sync + Send> {
     }
 }
 
+/// A writer that accepts at most `max` bytes per `write` call (pipes, sockets, `&mut [u8]` and
+/// small `LineWriter`s do this): `io::Write::write` may always write less than it was given.
+struct Short {
+    inner: Vec<u8>,
+    max: usize,
+}
+
+impl Short {
+    fn new(max: &Value) -> Self {
+        Short { inner: Vec::new(), max: max.as_u64().map_or(usize::MAX, |m| usize::try_from(m).unwrap()) }
+    }
+}
+
+impl Write for Short {
+    fn write(&mut self, buf: &[u8]) -> std::io::Result<usize> {
+        let n = buf.len().min(self.max);
+        self.inner.extend_from_slice(&buf[..n]);
+        Ok(n)
+    }
+    fn flush(&mut self) -> std::io::Result<()> {
+        Ok(())
+    }
+}
+
 pub fn run(case: &Value) -> Value {
     match case["kind"].as_str().unwrap() {
         "mapped" => {
-            let mut out: Vec<u8> = Vec::new();
+            let mut out = Short::new(&case["max"]);
             {
                 let f = mapper(case["mapper"].as_str().unwrap());
                 let mut w = mapped(&mut out, u8::try_from(case["marker"].as_u64().unwrap()).unwrap(), move |b| f(b));
@@ -30,11 +54,11 @@ pub fn run(case: &Value) -> Value {
                     let _ = w.unwrap();
                 } // else: drop
             }
-            json!({"id": case["id"], "out": json_bytes(&out)})
+            json!({"id": case["id"], "out": json_bytes(&out.inner)})
         }
         "tee" => {
-            let mut a: Vec<u8> = Vec::new();
-            let mut b: Vec<u8> = Vec::new();
+            let mut a = Short::new(&case["max_a"]);
+            let mut b = Short::new(&case["max_b"]);
             {
                 let mut w = tee(&mut a, &mut b);
                 for c in case["chunks"].as_array().unwrap() {
@@ -42,18 +66,19 @@ pub fn run(case: &Value) -> Value {
                 }
                 w.flush().unwrap();
             }
-            json!({"id": case["id"], "a": json_bytes(&a), "b": json_bytes(&b)})
+            json!({"id": case["id"], "a": json_bytes(&a.inner), "b": json_bytes(&b.inner)})
         }
         "command" => {
             let exe = std::env::current_exe().unwrap();
-            let mut so: Vec<u8> = Vec::new();
-            let mut se: Vec<u8> = Vec::new();
+            let mut so_w = Short::new(&case["max"]);
+            let mut se_w = Short::new(&case["max"]);
             let start = Instant::now();
             let res = Command::new(exe)
                 .arg("c19_child")
                 .env("VERIF_C19_SCRIPT", case["script"].to_string())
-                .output_and_write_streams(&mut so, &mut se);
+                .output_and_write_streams(&mut so_w, &mut se_w);
             let elapsed = start.elapsed();
+            let (so, se) = (so_w.inner, se_w.inner);
             match res {
                 Ok(o) => json!({"id": case["id"], "ok": true, "code": o.status.code(), "stdout_eq": o.stdout == so, "stderr_eq": o.stderr == se,
                                "so_len": so.len(), "se_len": se.len(), "so_sum": checksum(&so), "se_sum": checksum(&se),
